@@ -1,43 +1,19 @@
 import SpecterModel.C01.Sim
-/-! C01 driver: ring model + sorted-membership oracle for lookups on a stable ring. -/
+import SpecterModel.C01.Props
+/-! C01 driver: ring model + the proved oracle (`ownerOf`, gated by `stableB`) for lookups. -/
 namespace Specter.C01
 open Specter.Util Specter.Ring
 
-/-- live members: active, not crashed -/
-def members (net : Net) : List Nat :=
-  ((net.filter (fun p => p.2.state == .active && !p.2.crashed)).map (·.1)).toArray.qsort (· < ·) |>.toList
-
-/-- the first member at or clockwise after `key` in the sorted membership -/
-def oracleOwner (ms : List Nat) (key : Nat) : Option Nat :=
-  match ms.find? (fun m => key ≤ m) with
-  | some m => some m
-  | none => ms.head?
-
-def succOf (ms : List Nat) (n : Nat) : Option Nat := oracleOwner ms ((n + 1) % M)
-def predOf (ms : List Nat) (n : Nat) : Option Nat :=
-  match (ms.filter (· < n)).getLast? with
-  | some p => some p
-  | none => ms.getLast?
-
-/-- executable `Stable`: exact pred / succ / all fingers members, for every live member, and no other node alive -/
-def stableB (net : Net) : Bool :=
-  let ms := members net
-  !ms.isEmpty &&
-  net.all (fun (id, nd) =>
-    if nd.state == .active && !nd.crashed then
-      nd.pred == predOf ms id && nd.succs.head? == succOf ms id &&
-      nd.fingers.all (fun f => match f with | some f => ms.contains f | none => false) &&
-      nd.fingers.head? == some (succOf ms id)
-    else nd.state == .inactive || nd.state == .left || nd.crashed)
-
+/-- SPEC: on a ring that passes the executable stability test, a lookup from a member must return
+the member at minimal clockwise distance from the key (`lookup_eq_oracle`). Additionally require that
+no other node is alive-but-not-active (a quiescent ring), so the oracle is the sorted-membership owner. -/
 def spec (net _net' : Net) (toks : List String) (ires : String) : Option String :=
   match toks with
   | ["lookup", n, k] =>
     match n.toNat?, k.toNat? with
     | some n, some k =>
-      let ms := members net
-      if stableB net && ms.contains n && k < M then
-        match oracleOwner ms k with
+      if stableB net && memB net n && decide (k < M) then
+        match ownerOf net k with
         | some o => if ires == s!"found:{o}" then none else some s!"lookup on stable ring: owner of {k} is {o}"
         | none => none
       else none
